@@ -131,7 +131,7 @@ func classify(f float64) Val {
 		g *= 2
 		d *= 2
 		if g == math.Trunc(g) {
-			if math.Abs(g) < 1<<30 {
+			if math.Abs(g) < 1<<29 {
 				return mkVal("rat", int64(g), d, "")
 			}
 			break
